@@ -394,6 +394,9 @@ func htmlMissing(c cfg, res *result, i, slot int) string {
 			if rdfa && (iriRefOK(o, strings.SplitN(c.base, "#", 2)[0]) || has("<base") || has("xml:base")) {
 				return ""
 			}
+			if o == strings.SplitN(c.base, "#", 2)[0] {
+				return "" // an empty (or valueless) href/src/data attribute resolves to the document: no value text to point at
+			}
 			if jsonldToo {
 				return ""
 			}
@@ -479,9 +482,10 @@ func wholeDocTraits(format string, doc []byte) string {
 	}
 	toks := scanDoc(doc, true)
 	fmtOpen := map[string]int{}
+	seenRoot := map[string]bool{}
 	for i, t := range toks {
 		if htmlFormatting[t.name] {
-			if t.kind == 'S' && !t.selfCl {
+			if t.kind == 'S' { // `<i …/>` does not close a formatting element in HTML: the slash is ignored
 				fmtOpen[t.name]++
 			} else if t.kind == 'E' {
 				fmtOpen[t.name]--
@@ -489,6 +493,14 @@ func wholeDocTraits(format string, doc []byte) string {
 		}
 		switch t.kind {
 		case 'S':
+			if t.name == "body" || t.name == "html" {
+				// a second <html>/<body> start tag is merged into the existing element by the tree builder
+				// (attributes already present are skipped): attribute indexes no longer match
+				if seenRoot[t.name] && len(t.attrs) > 0 {
+					add("dup-attr")
+				}
+				seenRoot[t.name] = true
+			}
 			seenKey := map[string]bool{}
 			for ai, a := range t.attrs {
 				if seenKey[a.key] && (t.name == "body" || t.name == "html") {
